@@ -149,6 +149,13 @@ def run(ctx) -> Report:
     universe = dict(cells)
     for a, b in (("interval", "interval"), ("triangle", "interval"), ("quadrilateral", "interval"), ("interval", "triangle")):
         universe[f"{a}*{b}"] = ip.instantiate(tp, [cells[a], cells[b]], {})
+    # one-factor products (same cellname and dimension as the factor, but a different cell), a three-factor product
+    for a in cells:
+        try:
+            universe[f"tp({a})"] = ip.instantiate(tp, [cells[a]], {})
+        except LiftRaise:
+            pass
+    universe["interval*interval*interval"] = ip.instantiate(tp, [cells["interval"], cells["interval"], cells["interval"]], {})
     names = list(universe)
 
     def lt(a, b):
@@ -179,12 +186,14 @@ def run(ctx) -> Report:
         rep.ok("C26-order", where, f"`<` is a strict total order on {len(names)} cells ({len(names) ** 3} triples)")
     # tensor product vertex counts
     for nm, o in universe.items():
-        if "*" in nm:
-            a, b = nm.split("*")
+        if "*" in nm or nm.startswith("tp("):
+            factors = nm.split("*") if "*" in nm else [nm[3:-1]]
             nv = call(o, "num_sub_entities", 0)
-            want = call(cells[a], "num_sub_entities", 0) * call(cells[b], "num_sub_entities", 0)
+            want = 1
+            for fa in factors:
+                want *= call(cells[fa], "num_sub_entities", 0)
             td = tdim(o)
-            wtd = tdim(cells[a]) + tdim(cells[b])
+            wtd = sum(tdim(cells[fa]) for fa in factors)
             if nv == want and td == wtd and call(o, "num_sub_entities", td) == 1 and call(o, "num_sub_entities", -1) == 0 and call(o, "num_sub_entities", td + 1) == 0:
                 rep.ok("C26-tp", where, f"{nm}: {nv} vertices, tdim {td}")
             else:
